@@ -259,5 +259,5 @@ def run(res, tier):
                 "{-1,0,1,..,2^63-1}; a case is non-trivial when the header was accepted")
     std.run_standard(res, PID, tier, area="range", build_impl=impl, gen_cases=gen_cases, oracle=oracle,
                      corr_name="RangeModel vs src/HttpHdrRange.cc, src/HttpHeaderTools.cc, src/StrList.cc, src/base/Range.h",
-                     gens=["hdrtable"], n_quick=40000, n_thorough=600000, seed_salt=28, mutate=mutate,
+                     gens=["hdrtable"], n_quick=30000, n_thorough=600000, seed_salt=28, mutate=mutate,
                      kind_fn=kind, nontrivial_fn=lambda c, o: o.startswith("ok"))
